@@ -669,6 +669,25 @@ def km_obligations(P):
                 psi_m = -2 * alg.log((ONE + zeta) / 2) - alg.log((ONE + zeta * zeta) / 2) + 2 * alg.arctan(zeta) - alg.atom_expr(alg.PI) / 2
             obs.append(eq_ob("R-KM-Z0", site_z, "z0 solves ws = ustar/k (log(zm/z0) + psi_m) (%s)" % stab, zv, zm.val * alg.exp(psi_m - KAPPA * ws.val / us.val), "K&M Eq. 31 inverted", key={"stability": stab}))
             obs.append(req_ob("R-KM-Z0", site_z, "without smoothing the estimate does not depend on the wind direction (%s)" % stab, _atom(wd.val) not in zv.atoms()))
+        # a half window below one degree - any such value, not only 0 - means no smoothing (documented): same values as for 0
+        hs = alg.sym("half_window_below_one")
+        facts2 = Facts()
+        facts2.refine(mo.val, {"+"} if stab == "stable" else {"-"})
+        facts2.refine(hs - ONE, {"-"})
+        try:
+            res2 = CM.run_paths(P, "bldfm.ffm_kormann_meixner", "estimateZ0", [zm, ws, wd, us, mo], {"half_wd_win": hs}, facts=facts2, stubs={"numpy.nanmedian": lambda I, a, k, n: alg.sym("sector_median"), "numpy.median": lambda I, a, k, n: alg.sym("sector_median")})
+        except AnalysisError as e:
+            obs.append(req_ob("R-KM-Z0", site_z, "a half window below one degree is interpretable (%s)" % stab, None, detail=str(e)[:200]))
+            continue
+        vals0 = [r.value.val.expand() for r in rets if isinstance(r.value, Arr) and isinstance(r.value.val, Expr)]
+        rets2 = [r for r in res2 if r.kind == "return" and not any(d.startswith("unknown test") for d, _ in r.path)]
+        bad2 = []
+        for r in rets2:
+            zv2 = r.value.val if isinstance(r.value, Arr) else r.value
+            if not (isinstance(zv2, Expr) and any(zv2.expand().eq(v0) for v0 in vals0)):
+                bad2.append("for %s the estimate is %s" % ("; ".join("%s is %s" % (d[:50], b) for d, b in r.path if "half_window" in d)[:120] or "some half window below one", repr(zv2)[:60]))
+        obs.append(req_ob("R-KM-Z0", site_z, "every half window below one degree (negative and fractional ones included) returns the unsmoothed estimate (%s)" % stab,
+                          (not bad2) if rets2 else None, detail="; ".join(bad2[:2]) or None, key={"stability": stab, "clause": "below-one"}))
     return obs
 
 
